@@ -234,6 +234,7 @@ def run(prog, chk):
     chunk_decode_rule(prog, chk)
     one_byte_read_rule(prog, chk)
     unbuffered_descriptor_rule(prog, chk)
+    pipefail_every_failure_rule(prog, chk)
     chk.rule("R11.4", "wait_for_pipeline…: each waited stage pushes exactly one status before the next stage is popped; the pipefail "
                       "overwrite is control dependent on return_last_failure_from_pipeline")
     wb = prog.impl_body(WAIT_P)
@@ -503,3 +504,57 @@ def unbuffered_descriptor_rule(prog, chk):
 def short_callee(c):
     m = c.split(" as ")[0].lstrip("<&") if " as " in c else c
     return m.rsplit("::", 1)[-1] if "::" in m else m
+
+
+def pipefail_every_failure_rule(prog, chk):
+    """R11.8: under pipefail the status of a pipeline is that of the rightmost stage that failed — whatever its status (141 for a stage
+    ended by SIGPIPE included). The store that remembers the failing stage's exit code is control dependent on `!is_success()` and on
+    nothing else: no further test of the exit code decides whether a failure counts."""
+    chk.rule("R11.8", "pipefail bookkeeping: the store of the last failing stage's exit code depends only on !is_success() — no exit code is exempt")
+    b = prog.impl_body(WAIT_P)
+    if not chk.anchor("R11.8", WAIT_P, b):
+        return
+    c = cfg_of(b)
+    d = defs_of(b)
+    stores = []
+    for bl in b.blocks:
+        for st in bl.stmts:
+            if st.kind == 'a' and st.place.is_local() and (b.local_name(st.place.local) or "") == "last_failure_exit_code" and st.rv.kind == 'agg' and st.rv.variant == "Some":
+                stores.append(bl.idx)
+    if not stores:
+        # fall back: any Option<ExecutionExitCode> local assigned Some inside the loop
+        for bl in b.blocks:
+            for st in bl.stmts:
+                if st.kind == 'a' and st.place.is_local() and st.rv.kind == 'agg' and st.rv.variant == "Some" and "ExecutionExitCode" in b.local_ty(st.place.local):
+                    stores.append(bl.idx)
+    if not stores:
+        chk.fail("R11.8", WAIT_P, "pipefail-store-missing", "no store of the failing stage's exit code found")
+        return
+    loops = c.source_loops()
+    sb = stores[0]
+    loop = [blks for h, blks in loops.items() if sb in blks]
+    deciding = []
+    for g in (loop[0] if loop else range(len(b.blocks))):
+        t = b.blocks[g].term
+        if t.kind != "switch" or g == sb or not c.dominates(g, sb):
+            continue
+        if all(sb in c.reachable_from(x, avoid=[g]) for x in c.succ[g]):
+            continue
+        og = origins(b, d, t.discr, through_ops=True)
+        kinds = set()
+        for o in og:
+            if o.kind == 'call':
+                kinds.add((o.node.best_callee() or "").rsplit("::", 1)[-1])
+            elif o.kind == 'op' and o.node.kind == 'discr':
+                kinds.add("discr:" + (o.node.enum or "?").rsplit("::", 1)[-1])
+        deciding.append((g, kinds))
+    extra = [(g, k) for g, k in deciding if not (k & {"is_success"}) and not any(x.startswith("discr:ExecutionWaitResult") or x.startswith("discr:Option") or x == "next" or x == "pop_front" or x == "branch" or x.startswith("discr:ControlFlow") or x.startswith("discr:Result") for x in k)]
+    if extra:
+        chk.fail("R11.8", WAIT_P, "pipefail-exempts-some-failures",
+                 "whether a failing stage counts for pipefail also depends on %s (line %s), not only on !is_success(): a stage that failed with an exempted status "
+                 "(e.g. 141 after SIGPIPE) no longer makes the pipeline fail — `set -o pipefail; yes | head -1; echo $?` prints 0 (bash 141)"
+                 % (sorted(extra[0][1]) or "another condition", b.blocks[extra[0][0]].term.line))
+    elif any("is_success" in k for g, k in deciding):
+        chk.ok("R11.8", "pipefail-counts-every-failure", "the store depends on is_success() only", function=WAIT_P)
+    else:
+        chk.fail("R11.8", WAIT_P, "pipefail-store-unguarded", "the store of the failing stage's exit code is not under an is_success() test")
